@@ -50,6 +50,22 @@ func histReadSlot(file []byte, origin, t uint32) uint32 {
 }
 
 // runHistoryCase runs one case against the real store and evaluates the oracle.
+// histRead reads the history file unless it has grown beyond anything a case of this suite can
+// legitimately produce (a misplaced write can create a multi-gigabyte sparse file).
+func histRead(hp string) ([]byte, int64) {
+	st, err := os.Stat(hp)
+	if err != nil {
+		return nil, -1
+	}
+	if st.Size() > histFileLimit {
+		return nil, st.Size()
+	}
+	b, _ := os.ReadFile(hp)
+	return b, st.Size()
+}
+
+const histFileLimit = 1 << 20
+
 func runHistoryCase(res *core.Result, dir string, initial []byte, ops []histOp, tag string) (openOK bool, final []byte, err error) {
 	hp := filepath.Join(dir, client.HistoryFile)
 	if err := os.WriteFile(hp, initial, 0644); err != nil {
@@ -94,9 +110,18 @@ func runHistoryCase(res *core.Result, dir string, initial []byte, ops []histOp, 
 		case "save":
 			err := c.VerifSaveReading(op.T, op.V)
 			op.OK = err == nil
-			after, _ := os.ReadFile(hp)
+			after, asz := histRead(hp)
 			cur := histReadSlot(before, origin, op.T)
 			pos, inRange := histSlotPos(origin, op.T)
+			if asz > histFileLimit {
+				key := "misplaced-far"
+				if inRange && op.T-origin >= histMaxSlots {
+					key = "k3-offset-wrap"
+				}
+				res.Fail(fmt.Sprintf("save for slot origin+%d grew the file to %d bytes", int64(op.T)-int64(origin), asz), key, replay(i))
+				os.Remove(hp)
+				return true, nil, nil // no model comparison for this case
+			}
 			if err != nil {
 				if !bytes.Equal(before, after) {
 					res.Fail("a refused save changed the history file", "refused-save-writes", replay(i))
@@ -174,6 +199,10 @@ func historySuite(seed uint64, tier, outDir string) (*core.Result, error) {
 		openOK, final, err := runHistoryCase(res, dir, initial, ops, tag)
 		if err != nil {
 			return err
+		}
+		if openOK && final == nil {
+			res.Evaluations++ // counted, but there is no model case for it (the oracle already reported it)
+			return nil
 		}
 		var opsS, outS []string
 		changed, refused := false, false
@@ -348,7 +377,7 @@ func historySuite(seed uint64, tier, outDir string) (*core.Result, error) {
 				cls = "gen.before-origin"
 			} else if t-o >= histMaxSlots {
 				cls = "gen.wrap-range"
-			} else if t-o > 100000 {
+			} else if t-o > 5000 {
 				cls = "gen.far"
 			}
 			res.Count(cls)
